@@ -484,6 +484,10 @@ class CGenerator:
             s += " ".join(n.storage) + " "
         if n.align:
             s += self.visit(n.align[0]) + " "
+        if n.quals and isinstance(n.type, (c_ast.Struct, c_ast.Union, c_ast.Enum)):
+            # A bare tag declaration ('const struct S;') has no TypeDecl to
+            # carry the qualifiers.
+            s += " ".join(n.quals) + " "
         s += self._generate_type(n.type)
         return s
 
